@@ -81,6 +81,8 @@ KF_DEFAULTS = ['"x\\u00a0y"', '"x\\ufffey"']
 # since /repo 5ae424f, f58c8a9, f1922c5: overflowing floats, values longer than astor's line width and string OPERANDS of
 # annotations are ordinary pool entries
 DEF_POOL += ["1e999", "-1e999", LONG_LAMBDA, LONG_COMP]
+# a PARAMETER annotated with the literal None keeps its annotation (only `-> None` is omitted)
+ANN_POOL += [("None", "None"), ("None", "None"), ('"None"', "None"), ("Optional[None]", "Optional[None]"), ('Tuple["None", int]', "Tuple[None, int]")]
 ANN_POOL += [('"A | B" & C', "(A | B) & C"), ('C & "A | B"', "C & (A | B)"), ('-"a + b"', "-(a + b)")]
 
 SEEN_CONSTS: List[str] = []               # per worker process: constant defaults in the order pydoctor first met them
@@ -132,9 +134,9 @@ def exprs_for(rec: Dict[str, Any], rng: Optional[random.Random], lit: str = "Lit
     if r == "None":
         ret: Optional[Tuple[str, Optional[str]]] = ("None", None)
     elif r == "plain":
-        ret = ("int", "int") if rng is None else rng.choice([x for x in ANN_POOL if x[0] == x[1]])
+        ret = ("int", "int") if rng is None else rng.choice([x for x in ANN_POOL if x[0] == x[1] and x[1] != "None"])
     elif r == "string":
-        ret = ('"str"', "str") if rng is None else rng.choice([x for x in ANN_POOL if x[0] != x[1]])
+        ret = ('"str"', "str") if rng is None else rng.choice([x for x in ANN_POOL if x[0] != x[1] and x[1] != "None"])
     else:
         ret = None
     if ret and ret[1]:
@@ -284,11 +286,16 @@ def work(span: Tuple[int, int, int]) -> Dict[str, Any]:
     # overload groups: every 4th case, three per function, each overload keeps its own layout
     members = [k for k in range(len(cases)) if (lo + k) % 4 == 0]
     groups = [members[i:i + 3] for i in range(0, len(members), 3)]
+    def group_lines(gi: int, grp: List[int]) -> List[str]:
+        """one overloaded function; every other one is preceded by an earlier plain definition of the same name
+        (a fallback the overload set then replaces), the history `def g ... ; @overload def g ... ; def g`"""
+        out_ = [f"def g{lo}_{gi}(value, *args, **kwargs): pass"] if gi % 2 else []
+        for k_ in grp:
+            out_ += ["@overload", write_def(f"g{lo}_{gi}", cases[k_], exs[k_], body="...")]
+        return out_ + [f"def g{lo}_{gi}(*args, **kwargs): pass"]
+
     for gi, grp in enumerate(groups):
-        for k in grp:
-            lines.append("@overload")
-            lines.append(write_def(f"g{lo}_{gi}", cases[k], exs[k], body="..."))
-        lines.append(f"def g{lo}_{gi}(*args, **kwargs): pass")
+        lines += group_lines(gi, grp)
     msgs: List[Tuple[str, str]] = []
     modname = f"m{lo}"
 
@@ -362,10 +369,8 @@ def work(span: Tuple[int, int, int]) -> Dict[str, Any]:
         if k == 0:
             out["samples"].append({"source": src, "displayed": text})
     for gi, grp in enumerate(groups):
-        own = []
-        for k in grp:
-            own += ["@overload", write_def(f"g{lo}_{gi}", cases[k], exs[k], body="...")]
-        fn, err = lookup(f"g{lo}_{gi}", own + [f"def g{lo}_{gi}(*args, **kwargs): pass"])
+        own = group_lines(gi, grp)
+        fn, err = lookup(f"g{lo}_{gi}", own)
         if err is not None:
             continue                      # already reported for the plain definitions of the same layouts
         ovs = list(fn.overloads) if isinstance(fn, model.Function) else []
@@ -375,7 +380,7 @@ def work(span: Tuple[int, int, int]) -> Dict[str, Any]:
             src = write_def(f"g{lo}_{gi}", cases[k], exs[k], deco="@overload\n", body="...")
             text = flatten_text(format_signature(ovs[j])) if j < len(ovs) else "<missing overload>"
             out["n_overloads"] += 1
-            grp_src = {"group_src": "\n".join(own + [f"def g{lo}_{gi}(*args, **kwargs): pass"]), "index": j}
+            grp_src = {"group_src": "\n".join(own), "index": j}
             if RICH:
                 grp_src["context_src"] = ctxs[k]
             judge(cases[k], exs[k], text, "overload", src, grp_src)
